@@ -31,7 +31,22 @@ fn gen(t: &mut Tape, _tier: Tier) -> Scenario {
     } else {
         b = gen_lzma(t, 0, 20_000);
         sc.set_i("ep", if which == 2 { EP_STREAM } else { EP_LZMA });
-        sc.set_b("input", b.std_file());
+        // all three header options (the limit is applied by the same window
+        // whichever way the size arrives)
+        opts.mode = t.below(3);
+        let size = if b.marker { None } else { Some(b.expect.len() as u64) };
+        let f = match opts.mode {
+            0 => b.std_file(),
+            1 => {
+                opts.provided = size;
+                b.file(Some(t.u64()))
+            }
+            _ => {
+                opts.provided = size;
+                b.file(None)
+            }
+        };
+        sc.set_b("input", f);
     }
     // "lying header": the same stream under a header that announces a huge
     // dictionary and a huge size — nothing may be reserved on the strength of it
@@ -39,7 +54,7 @@ fn gen(t: &mut Tape, _tier: Tier) -> Scenario {
         let mut f = sc.b("input").to_vec();
         let big_dict: u32 = [0x4000_0000u32, 0xFFFF_FFFF, 0x1000_0000][t.below(3) as usize];
         f[1..5].copy_from_slice(&big_dict.to_le_bytes());
-        if !b.marker {
+        if !b.marker && opts.mode == 0 {
             // declared size larger than what the payload holds: both runs must fail
             f[5..13].copy_from_slice(&(0x4000_0000u64).to_le_bytes());
             sc.set_i("lying_size", 1);
@@ -214,7 +229,7 @@ fn exec(sc: &Scenario, ctx: &mut Ctx) -> Vec<Violation> {
 pub static C10: SimpleProp = SimpleProp {
     id: "C10",
     level: "exploration",
-    rule: "one evaluation = one pair (unlimited run, run with memlimit m) of a valid reference-encoded stream, m in {0, need-1, need, need+1, dict-1, dict, max, random, and values >= 2^32 whose low 32 bits are small} with need = min(dictionary, bytes produced), through lzma_decompress_with_options, Stream under a random history, or the raw decoder (dictionary 1..5000); m >= need: identical verdict and bytes; m < need: Err and delivered bytes are a model prefix; heap peak of the limited run (metering allocator) <= literal table + 2*max(min(m,need),8) + 16 KiB (only allocations made while library code runs are metered); a fifth of the header-carrying streams are re-headed to announce a 256 MiB-4 GiB dictionary (and, for size-bounded ones, a 1 GiB size); non-trivial = need > 0; distinct by scenario hash",
+    rule: "one evaluation = one pair (unlimited run, run with memlimit m) of a valid reference-encoded stream, m in {0, need-1, need, need+1, dict-1, dict, max, random, and values >= 2^32 whose low 32 bits are small} with need = min(dictionary, bytes produced), through lzma_decompress_with_options or Stream under a random history (each under all three header options), or the raw decoder (dictionary 1..5000); m >= need: identical verdict and bytes; m < need: Err and delivered bytes are a model prefix; heap peak of the limited run (metering allocator) <= literal table + 2*max(min(m,need),8) + 16 KiB (only allocations made while library code runs are metered); a fifth of the header-carrying streams are re-headed to announce a 256 MiB-4 GiB dictionary (and, for size-bounded ones, a 1 GiB size); non-trivial = need > 0; distinct by scenario hash",
     runs_quick: 60_000,
     runs_thorough: 24_000_000,
     both_profiles: false,
